@@ -286,13 +286,23 @@ func VerifH_C22_prefix() {
 	sym.Reach("prefix")
 }
 
-// VerifH_C22_t: 0-2 underlying entries, 3 arbitrary writes.
+// VerifH_C22_t: 0-2 underlying entries, 2 arbitrary writes (put/delete/batch), every final check.
+// (0-2 entries with THREE arbitrary writes did not finish: 606 k paths explored in 3000 s, no violation; not registered)
 func VerifH_C22_t() {
 	h := newVF(sym.Choice("nunder", 3), 1, false)
 	h.write(0)
 	h.write(1)
-	h.write(2)
 	h.final()
+}
+
+// VerifH_C22_w3: 1 underlying entry, 3 put/delete writes, then reads / iteration / flush / snapshot.
+func VerifH_C22_w3() {
+	h := newVF(1, 1, false)
+	h.kinds = 2
+	h.write(0)
+	h.write(1)
+	h.write(2)
+	h.finalOf(sym.Choice("final", 4))
 }
 
 // VerifH_C22_lazy: LazyFlushable: producer called at first flush, same semantics.
